@@ -60,9 +60,9 @@ def S(xs):
 
 def alphabets(tier):
     if tier == "thorough":
-        return dict(Ports=S([0, 1, 80, 443, 65534, 65535]), DLens=S([0, 1, 2, 11, 12, 63, 64, 254, 255]),
+        return dict(Ports=S([0, 1, 80, 443, 65535]), DLens=S([0, 1, 2, 11, 63, 64, 255]),
                     DomKinds=S(["hit", "ldh", "bin"]), V4Kinds=S(["typ", "zero", "pfx"]), V6Kinds=S(["typ", "zero", "mapped", "pfx"]),
-                    BadAtyps=S([0, 2, 5, 255]), PadLens=S([0, 1, 899, 900, 901]), PayLens=S([0, 1, 32, 1200]), Tails=S([0, 5]),
+                    BadAtyps=S([0, 2, 5, 255]), PadLens=S([0, 1, 900, 901]), PayLens=S([0, 32, 1200]), Tails=S([0, 5]),
                     TsOffs=S([-100000, -31, -30, -29, 29, 30, 31, 100000]), BadBytes=S([0, 2, 4, 6, 128, 255]),
                     LenBytes=S([0, 1, 2, 3, 11, 254, 255]), Rich="TRUE")
     return dict(Ports=S([0, 1, 443, 65535]), DLens=S([0, 1, 11, 255]), DomKinds=S(["hit", "ldh", "bin"]),
@@ -162,16 +162,16 @@ def crash_origin(out):
     return "unknown"
 
 
-def run_batch(binary, batch, params, seed, tier, work, idx, timeout, v, stats):
+def run_batch(binary, batch, params, seed, tier, work, idx, timeout, v, stats, test="TestCases"):
     """Run one batch of cases in a child process; when the child dies, attribute the crash to the case it was
     executing (progress file), record it and run the rest of the batch again without that case."""
     cases = list(batch)
     results = []
     crashes = 0
     while cases:
-        prog = os.path.join(work, "progress-%d-%d.txt" % (idx, crashes))
+        prog = os.path.join(work, "progress-%s-%d-%d.txt" % (test, idx, crashes))
         inp = {"params": dict(params, cases=cases), "seed": seed, "tier": tier}
-        res, out, rc = vlib.run_driver(binary, "TestCases", inp, timeout, env_extra={"VERIF_PROGRESS": prog})
+        res, out, rc = vlib.run_driver(binary, test, inp, timeout, env_extra={"VERIF_PROGRESS": prog})
         if res is not None:
             results.append((res, out, rc))
             break
@@ -186,6 +186,13 @@ def run_batch(binary, batch, params, seed, tier, work, idx, timeout, v, stats):
             raise vlib.Broken("a driver process died without a result and the crash is not attributable to the code under test "
                               "(origin=%s, last case=%s, rc=%s):\n%s" % (origin, last, rc, out[-3000:]))
         cid, kk = last[0], int(last[1])
+        if cid == "startup":
+            i = max(out.find("panic:"), out.find("fatal error:"))
+            stats["crashes"] += 1
+            v.violation("live/panic", "the service died while its listeners were probed with connections that send nothing and with "
+                        "well-formed requests, before any case of the lattice:\n%s" % out[i:i + 1800],
+                        {"replay": {"case": cases[0], "k": 0, "seed": seed, "stage": "startup", "test": test}})
+            break
         bad = next((c for c in cases if c["id"] == cid), None)
         if bad is None:
             raise vlib.Broken("progress file names a case that is not in the batch: %s" % cid)
@@ -196,10 +203,12 @@ def run_batch(binary, batch, params, seed, tier, work, idx, timeout, v, stats):
         v.violation("%s/panic" % bad["ep"],
                     "%s: the process died while this input was being handled (a goroutine of the code under test, not recoverable "
                     "by the caller): %s\n%s" % (bad["ep"], what, out[i:i + 1800]),
-                    {"replay": {"case": bad, "k": kk, "seed": seed, "stage": "process"}})
+                    {"replay": {"case": bad, "k": kk, "seed": seed, "stage": "process", "test": test}})
         crashes += 1
         if crashes > 6:
-            raise vlib.Broken("more than 6 process crashes in one batch; last:\n%s" % out[-2000:])
+            # enough evidence from this batch; the remaining cases of it are not run
+            stats["abandoned_cases"] += len(cases) - 1
+            break
         # the cases before the crashing one ran clean but their counters are gone with the process: run them again
         cases = [c for c in cases if c["id"] != cid]
     return results
@@ -224,7 +233,7 @@ def run(tier, seed, replay):
         case, kk = rep["case"], int(rep.get("k", 0))
         p = dict(params, cases=[case], conc=kk + 1, onlyK=kk)
         prog = os.path.join(work, "progress-replay.txt")
-        res, out, rc = vlib.run_driver(binary, "TestCases", {"params": p, "seed": int(rep.get("seed", seed)), "tier": tier}, 300,
+        res, out, rc = vlib.run_driver(binary, rep.get("test") or "TestCases", {"params": p, "seed": int(rep.get("seed", seed)), "tier": tier}, 300,
                                        env_extra={"VERIF_PROGRESS": prog})
         if res is None:
             if crash_origin(out) != "repo":
@@ -243,7 +252,7 @@ def run(tier, seed, replay):
     design_violation = []
     groups = GROUPS[tier]
     with ThreadPoolExecutor(max_workers=len(groups)) as ex:
-        futs = [ex.submit(run_tlc, name, eps, consts, 2400 if big else 1200, 3 if big else 5) for name, eps in groups]
+        futs = [ex.submit(run_tlc, name, eps, consts, 3300 if big else 1200, 3 if big else 5) for name, eps in groups]
         outs = [f.result() for f in futs]
     for (name, r), (_, eps) in zip(outs, groups):
         if r.violation:
@@ -277,7 +286,7 @@ def run(tier, seed, replay):
             tlc_cov["mutant/" + variant] = {"violates": r.violation}
 
     # ---- (3) the binding: every case through the real code, in child-process batches
-    conc = 6 if big else 3
+    conc = 5 if big else 3
     ordered = sorted(cases.values(), key=lambda c: hashlib.sha1((c["id"] + str(seed)).encode()).hexdigest())
     nb = 48 if big else 16
     batches = [b for b in common.chunks(ordered, nb) if b]
@@ -286,6 +295,13 @@ def run(tier, seed, replay):
     with ThreadPoolExecutor(max_workers=16) as ex:
         futs = [ex.submit(run_batch, binary, b, p, seed, tier, work, i, 780 if big else 300, v, stats) for i, b in enumerate(batches)]
         results = [f.result() for f in futs]
+    # ---- (4) the live layer: the server-side cases once more, over loopback sockets into a real service.Manager
+    live_eps = ("s5srv", "nonesrv", "httpsrv", "ss22srv", "s5udpsrv", "noneudpsrv", "ss22udpsrv")
+    live_cases = [c for c in ordered if c["ep"] in live_eps]
+    lb = [b for b in common.chunks(live_cases, 8 if big else 4) if b]
+    with ThreadPoolExecutor(max_workers=8) as ex:
+        futs = [ex.submit(run_batch, binary, b, params, seed, tier, work, i, 780 if big else 300, v, stats, "TestLive") for i, b in enumerate(lb)]
+        results += [f.result() for f in futs]
     counters = collections.Counter()
     evaluations = ran = 0
     viol_by_key = collections.Counter()
@@ -297,6 +313,8 @@ def run(tier, seed, replay):
                 if viol_by_key[f["key"]] <= 3:
                     kept.append(f)
             res["violations"] = kept
+            res["samples"] = res.get("samples") or []
+            res["counters"] = res.get("counters") or {}
             res = common.absorb(v, res, out, rc, "cases")
             evaluations += res["steps"]
             ran += res["behaviours"]
@@ -327,7 +345,7 @@ def run(tier, seed, replay):
              "truncated, or it carries a boundary address.",
         distinct_cases=len(cases), cases_run=ran, concretisations_per_case=conc, model_verdicts={"%s/%s" % kk: n for kk, n in sorted(model.items())},
         observed_verdicts=group("verdict/"), route_outcomes=group("route/"), replies=group("reply/"), dials=group("dial/"),
-        packs=group("pack/"), dns=group("dns/"), drift=group("drift/"), violations_by_key=dict(viol_by_key), tlc=tlc_cov,
+        packs=group("pack/"), dns=group("dns/"), live=group("live/"), drift=group("drift/"), violations_by_key=dict(viol_by_key), tlc=tlc_cov,
         states=sum(x.get("distinct", 0) for x in tlc_cov.values()), transitions=sum(x.get("generated", 0) for x in tlc_cov.values()),
         process_crashes=stats["crashes"], constants_from_code=lconsts, exhaustive=False)
     v.assumptions += ["AEAD, BLAKE3 and AES are trusted (hostile peers with the key are modelled by sealing hostile plaintext)",
